@@ -188,7 +188,7 @@ def requests(tier):
 def explore(ctx):
     ctx.rule = ("mode B: a state is an ordered request list over the 21 keys (a step appends a key); enumerated: every ordered "
                 "sequence of length <=2 (<=3 thorough), the 21 complements, the full set in 22 orders (+210 transpositions "
-                "thorough), x 9 axial-strain fields (incl. two positive fields that are not normalised to sum 1, two nearly-equal ones at 1e-9 and 1e-13 sitting on the task de-duplication edge, two equal fractions, e1=(e2+e3)/2), the full set under all 6 axis relabellings x 7 fields; ONE task-list object resolved and calculated twice or three times with different strain fields / key sets (every result equal to a fresh list's); thorough adds "
+                "thorough), x 9 axial-strain fields, + volume grids of 1 / 3 / 5 points (3 makes the strain array square) x 6 fields incl. integer dtype and equal strains of varying magnitude (incl. two positive fields that are not normalised to sum 1, two nearly-equal ones at 1e-9 and 1e-13 sitting on the task de-duplication edge, two equal fractions, e1=(e2+e3)/2), the full set under all 6 axis relabellings x 7 fields; ONE task-list object resolved and calculated twice or three times with different strain fields / key sets (every result equal to a fresh list's); thorough adds "
                 "all 2^15 subsets of the shear keys with and without the 6 non-shear keys; every request is resolved and "
                 "calculated on the real task list; oracles: completeness, dependency order, sam_ref value, equality of each "
                 "key's value across ALL explored requests of the same strain field (merging histories only after the "
@@ -201,6 +201,16 @@ def explore(ctx):
             cases.append({"keys": [list(p) for p in r], "strain": s, "isotropy": s in ("thirds", "ones") and len(r) == 21})
         for perm in PERMS[1:]:
             cases.append({"keys": [list(p) for p in PAIRS], "strain": s, "perm": list(perm)})
+    # volume-grid lengths (3 makes the (ntv,3) strain array square) x strain fields incl. integer dtype and equal strains of
+    # varying magnitude; full request, two sub-requests, two axis relabellings
+    for vg in ([280.0, 320.0, 301.0], [280.0, 320.0, 301.0, 264.0, 250.0], [300.0]):
+        for s in ("field", "raw", "int", "int-equal", "equal-varying", "mixed-rows"):
+            iso_flag = s in ("int-equal", "equal-varying")
+            cases.append({"keys": [list(p) for p in PAIRS], "strain": s, "spec": {"vgrid": vg}, "isotropy": iso_flag})
+            cases.append({"keys": [[1, 1], [1, 2], [4, 4]], "strain": s, "spec": {"vgrid": vg}})
+            cases.append({"keys": [[4, 6], [1, 1], [2, 2]], "strain": s, "spec": {"vgrid": vg}})
+            for perm in (PERMS[1], PERMS[4]):
+                cases.append({"keys": [list(p) for p in PAIRS], "strain": s, "spec": {"vgrid": vg}, "perm": list(perm)})
     if not ctx.quick:
         for s in ("field",):
             for L in (3,):
@@ -227,7 +237,7 @@ def explore(ctx):
         if "vals" not in r:
             continue
         if c.get("perm") is None:
-            merged.add((c["strain"], frozenset(tuple(p) for p in c["keys"])))
+            merged.add((c["strain"], repr(sorted(c.get("spec", {}).items())), frozenset(tuple(p) for p in c["keys"])))
         for k, (iso, adi) in r["vals"].items():
             pair = (int(k[0]), int(k[1]))
             if c.get("perm") is not None:
@@ -236,7 +246,7 @@ def explore(ctx):
             else:
                 pair0 = pair
                 sig = "c04:request-dependence"
-            slot = (c["strain"], pair0)
+            slot = (c["strain"], repr(sorted(c.get("spec", {}).items())), pair0)
             arr = numpy.array([iso, adi])
             if slot not in first:
                 first[slot] = (arr, c)
